@@ -123,7 +123,7 @@ def run_task(task: dict) -> dict:
             stats.inc(f"shape_{g.shape['name']}")
             varint_offsets = {off for off, n in g.reads if n == 1}
             boundaries = {off for off, n in g.reads}
-            mode = rng.choice(streams.CHUNK_MODES)
+            mode = rng.choice(streams.CHUNK_MODES if len(g.data) <= 16384 else ("all", "any"))
             bad_here = 0
             with core.wall_backstop(120):
                 for k in cuts:
